@@ -61,6 +61,12 @@ type Scenario struct {
 	// Remove of their own target (see DESIGN 5.1).
 	Resets map[string]int `json:"race_resets,omitempty"`
 	Admin  []AdminOp      `json:"race_admin,omitempty"`
+	// Readd: targets that a second configuration goroutine (one per target)
+	// adds again (and writes one leaf to) as soon as it sees that the target is
+	// gone, while the admin task's Remove of it may still be under way. Nothing
+	// else touches such a target in the second phase (one Remove, no Reset), so
+	// every order of the calls is a legal history.
+	Readd []string `json:"race_readd,omitempty"`
 }
 
 // AdminOp is one call of the admin task of the second phase.
@@ -205,6 +211,16 @@ func GenStreams(rng *simrt.Rand, u *gen.Universe, prop string, lifecycle, small,
 // whatever the collector's clock does, and the statement of C02 speaks of the
 // latest timestamp accepted - which a Reset forgets.
 func GenStreamsR(rng *simrt.Rand, u *gen.Universe, prop string, lifecycle, resetOnly, small, share bool, maxOps int) [][]Op {
+	return GenStreamsC(rng, u, prop, lifecycle, resetOnly, small, share, maxOps, 0)
+}
+
+// GenStreamsC is GenStreamsR with creeping timestamps (creep > 0 = the future
+// threshold): bursts of single updates to one leaf whose timestamps run ahead
+// of the collector's clock in steps no larger than the threshold, each of
+// them acceptable only because it is close enough to the latest accepted
+// timestamp - with values from a small set, so that some of them leave the
+// value unchanged (and are suppressed, yet accepted).
+func GenStreamsC(rng *simrt.Rand, u *gen.Universe, prop string, lifecycle, resetOnly, small, share bool, maxOps int, creep int64) [][]Op {
 	var streams [][]Op
 	for _, tg := range u.Targets {
 		var ops []Op
@@ -219,6 +235,7 @@ func GenStreamsR(rng *simrt.Rand, u *gen.Universe, prop string, lifecycle, reset
 			val    gen.Val
 		}
 		var hist []sent
+		creepTS := int64(0)
 		remember := func(nt *gen.Noti) {
 			if nt.Atomic {
 				return
@@ -292,13 +309,29 @@ func GenStreamsR(rng *simrt.Rand, u *gen.Universe, prop string, lifecycle, reset
 				ops = append(ops, Op{K: "upd", N: gen.HostileNoti(rng, u, tg, 90+int64(rng.Intn(50)))})
 				continue
 			}
+			if creep > 0 && len(hist) >= 1 && rng.Chance(0.15) {
+				h := hist[rng.Intn(len(hist))]
+				if creepTS == 0 {
+					creepTS = 118 + int64(rng.Intn(12))
+				}
+				for k := 2 + rng.Intn(3); k > 0; k-- {
+					creepTS += int64(rng.Intn(int(creep) + 2)) // sometimes one step too far
+					v := h.val
+					if rng.Chance(0.4) {
+						v = gen.RandVal(rng, true)
+					}
+					ops = append(ops, Op{K: "upd", N: &gen.Noti{Target: tg, Origin: h.origin, TS: creepTS,
+						Ups: []gen.Upd{{Path: append([]gen.Elem(nil), h.full...), Val: v}}}})
+				}
+				continue
+			}
 			if len(hist) >= 2 && rng.Chance(0.1) {
 				// a partial re-send: several leaves written before, in one
 				// notification with a recent timestamp, most with the value they
 				// were last sent with
 				first := hist[rng.Intn(len(hist))]
 				nt := &gen.Noti{Target: tg, Origin: first.origin, TS: 125 + int64(rng.Intn(16))}
-				for i := 2 + rng.Intn(2); i > 0; i-- {
+				for i := 1 + rng.Intn(3); i > 0; i-- { // one update: a heartbeat re-send of a single leaf
 					h := hist[rng.Intn(len(hist))]
 					if i > 1 && rng.Chance(0.5) {
 						h = first
@@ -353,7 +386,11 @@ func (H) Generate(rng *simrt.Rand, prop, tier string) (any, simrt.Config) {
 		pReset = 0.6 // what a Reset must forget only matters to the future-threshold rule
 	}
 	resetOnly := prop == "C02" && !lifecycle && rng.Chance(pReset)
-	sc.Streams = GenStreamsR(rng, u, prop, lifecycle, resetOnly, small, share, 4+rng.Intn(26))
+	creep := int64(0)
+	if (prop == "C02" || prop == "C15") && sc.Opts.FutureNs > 0 && sc.Opts.FutureNs < 100 && rng.Chance(0.6) {
+		creep = sc.Opts.FutureNs
+	}
+	sc.Streams = GenStreamsC(rng, u, prop, lifecycle, resetOnly, small, share, 4+rng.Intn(26), creep)
 	// clock task
 	if sc.ClockMode != "frozen" || rng.Chance(0.5) {
 		v := sc.Clock0
@@ -390,7 +427,7 @@ func (H) Generate(rng *simrt.Rand, prop, tier string) (any, simrt.Config) {
 	if rng.Chance(0.3) {
 		sc.Readers = 1 + rng.Intn(2)
 	}
-	if (prop == "C03" || prop == "C14") && sc.ClockMode == "advancing" && rng.Chance(0.3) {
+	if (prop == "C03" || prop == "C14") && sc.ClockMode == "advancing" && rng.Chance(0.4) {
 		sc.Resets = map[string]int{}
 		for _, tg := range sc.Targets {
 			if rng.Chance(0.8) {
@@ -399,6 +436,31 @@ func (H) Generate(rng *simrt.Rand, prop, tier string) (any, simrt.Config) {
 		}
 		for i := 1 + rng.Intn(4); i > 0; i-- {
 			sc.Admin = append(sc.Admin, AdminOp{K: []string{"remove", "remove", "add"}[rng.Intn(3)], Target: sc.Targets[rng.Intn(len(sc.Targets))]})
+		}
+		for _, tg := range sc.Targets {
+			if !rng.Chance(0.5) {
+				continue
+			}
+			sc.Readd = append(sc.Readd, tg)
+			delete(sc.Resets, tg)
+			var admin []AdminOp
+			seen := false
+			for _, op := range sc.Admin {
+				if op.Target == tg {
+					if op.K != "remove" || seen {
+						continue
+					}
+					seen = true
+				}
+				admin = append(admin, op)
+			}
+			if !seen {
+				admin = append(admin, AdminOp{K: "remove", Target: tg})
+				if k := rng.Intn(len(admin)); k < len(admin)-1 {
+					admin[k], admin[len(admin)-1] = admin[len(admin)-1], admin[k]
+				}
+			}
+			sc.Admin = admin
 		}
 	}
 	return sc, cfg
@@ -634,6 +696,8 @@ type world struct {
 	feeds  [][]feedRec // per task id
 	recs   [][]opRec   // per stream
 	clkLog [][2]int64  // (stamp, value), clock task only
+	// stallAt: id of the task that is stalled at every clock reading (0 = none)
+	stallAt atomic.Int64
 }
 
 const maxTasks = 64
@@ -649,6 +713,14 @@ func (H) Execute(x *common.Exec, s any) {
 		}
 		if t := simrt.Current(); t != nil && t.ID < maxTasks {
 			w.nows[t.ID] = append(w.nows[t.ID], v)
+			if int64(t.ID) == w.stallAt.Load() {
+				// stall fault: the admin goroutine of the second phase is preempted
+				// for a while wherever it reads the clock (inside Remove: while the
+				// delete announcement is being built)
+				for i := 0; i < 24; i++ {
+					simrt.Yield("preempted-at-clock-read")
+				}
+			}
 		}
 		return time.Unix(0, v)
 	}
@@ -811,6 +883,11 @@ func (H) Execute(x *common.Exec, s any) {
 		}
 	}
 	x.R.Go("admin", func() {
+		if len(sc.Readd) > 0 {
+			if t := simrt.Current(); t != nil {
+				w.stallAt.Store(int64(t.ID))
+			}
+		}
 		for _, op := range sc.Admin {
 			switch op.K {
 			case "remove":
@@ -822,6 +899,29 @@ func (H) Execute(x *common.Exec, s any) {
 			}
 		}
 	})
+	var readded atomic.Int64
+	for _, tg := range sc.Readd {
+		tg := tg
+		x.R.Go("readder-"+tg, func() {
+			// Only a target this task has seen present is re-added: its one Remove
+			// of this phase is then known to be the one that made it disappear,
+			// and the update below cannot race a Remove of its own target
+			// (DESIGN 5.1).
+			if !w.c.HasTarget(tg) {
+				return
+			}
+			for i := 0; i < 300; i++ {
+				if !w.c.HasTarget(tg) {
+					w.c.Add(tg)
+					w.c.GnmiUpdate(&pb.Notification{Timestamp: 100000, Prefix: &pb.Path{Target: tg},
+						Update: []*pb.Update{{Path: &pb.Path{Elem: []*pb.PathElem{{Name: "readded"}}}, Val: &pb.TypedValue{Value: &pb.TypedValue_IntVal{IntVal: 1}}}}})
+					readded.Add(1)
+					return
+				}
+				simrt.Yield("readd-poll")
+			}
+		})
+	}
 	out = x.R.Schedule(false, nil)
 	x.R.AcquireEnd()
 	if out == simrt.StepLimit {
@@ -831,6 +931,9 @@ func (H) Execute(x *common.Exec, s any) {
 	if out != simrt.AllDone {
 		x.Violate(x.Prop+"/deadlock", "lifecycle calls blocked forever: %s", x.R.Summary())
 		return
+	}
+	for i := readded.Load(); i > 0; i-- {
+		x.Probe("target-re-added-by-a-second-goroutine-while-or-after-its-remove")
 	}
 	final2 := map[string]map[string]leafSnap{}
 	x.R.Go("final2", func() {
@@ -905,6 +1008,10 @@ func (w *world) countFaults(x *common.Exec) {
 	}
 	if len(sc.Admin) > 0 {
 		x.Fault("reset-raced-with-remove-add")
+	}
+	if len(sc.Readd) > 0 {
+		x.Fault("remove-raced-with-re-add-by-a-second-goroutine")
+		x.Fault("goroutine-stalled-at-clock-read")
 	}
 }
 
